@@ -8,9 +8,12 @@ import (
 	"os"
 	"os/exec"
 	"path/filepath"
+	"sort"
+	"strings"
 	"sync"
 	"time"
 
+	"verif.local/lab/cases"
 	"verif.local/lab/gen"
 	"verif.local/lab/oracle"
 	"verif.local/lab/pipeline"
@@ -38,6 +41,13 @@ type rtCheck struct {
 	AllowFiles bool
 	// PostDesign is called once per design with its setup record (mounted routes) — used by C07.
 	PostDesign func(run *vc.Run, d *pipeline.Design, setup map[string]any)
+	// Streams lets the generator emit HTTP streaming (websocket) methods with a modest probability in the
+	// check's own profiles (C07: they are documented and mounted, not driven).
+	Streams bool
+	// StreamSpecs is the size (quick, thorough) of the dedicated batch of streaming designs (profile "stream")
+	// driven in addition to the check's own designs; StreamPerMethod the cases per streaming method.
+	StreamSpecs     [2]int
+	StreamPerMethod [2]int
 }
 
 type rtWitness struct {
@@ -130,6 +140,9 @@ func runRuntime(c *rtCheck) {
 		run.Finish()
 	}
 	total := c.Specs[ti]
+	if os.Getenv("VERIF_STREAM_ONLY") != "" && c.StreamSpecs[ti] > 0 {
+		total = 0 // debugging aid: only the streaming batch (the floor will call the run inconclusive)
+	}
 	per := 32
 	idx := 0
 	for bi := 0; idx < total; bi++ {
@@ -140,7 +153,7 @@ func runRuntime(c *rtCheck) {
 		var specs []*spec.Spec
 		for i := 0; i < n; i++ {
 			prof := c.Profiles[(idx+i)%len(c.Profiles)]
-			s := gen.Generate(run.Rand(2, uint64(idx+i)), fmt.Sprintf("%d", idx+i), gen.Opts{Profile: prof, Runtime: true, Thorough: run.Thorough(), Files: c.AllowFiles})
+			s := gen.Generate(run.Rand(2, uint64(idx+i)), fmt.Sprintf("%d", idx+i), gen.Opts{Profile: prof, Runtime: true, Thorough: run.Thorough(), Files: c.AllowFiles, Streams: c.Streams})
 			s.AddFeature("profile-" + prof)
 			specs = append(specs, s)
 		}
@@ -167,6 +180,64 @@ func runRuntime(c *rtCheck) {
 		}
 		if os.Getenv("VERIF_KEEP") == "" {
 			os.RemoveAll(dir)
+		}
+	}
+	// dedicated batch of streaming designs: websocket endpoints next to plain ones, driven over a real socket
+	if ns := c.StreamSpecs[ti]; ns > 0 {
+		run.Assume("streaming endpoints are driven over a real loopback socket (httptest.Server + gorilla websocket) with the deterministic protocols of rt/stream.go; an exchange whose watchdog fires is inconclusive",
+			"streamed results of result types with views are judged against the reference projection of oracle/c08.go (the view the service sets, or the fixed one); result types in the trigger classes of the listed C08 findings (required attribute outside the view, recursive result type) are inconclusive",
+			"streaming payloads of the runtime batch stay clear of the listed C01 findings (alias / union in a streaming payload, string lengths in non-user message types, two routes)")
+		var specs []*spec.Spec
+		for i := 0; i < ns; i++ {
+			o := gen.Opts{Profile: "stream", Runtime: true, Streams: true, StreamViews: true, Thorough: run.Thorough()}
+			if i%4 == 1 {
+				o.StreamForce = "views" // every fourth design streams a multi-view result type from the server
+			}
+			s := gen.Generate(run.Rand(7, uint64(i)), fmt.Sprintf("s%d", i), o)
+			s.AddFeature("profile-stream")
+			specs = append(specs, s)
+		}
+		mk := func(d *pipeline.Design) []*rt.Case {
+			var cs []*rt.Case
+			di := 0
+			fmt.Sscanf(d.ID, "d%d", &di)
+			for si, sv := range d.Spec.Services {
+				if sv.NoHTTP {
+					continue
+				}
+				for mi, m := range sv.Methods {
+					r := run.Rand(8, uint64(di), uint64(si), uint64(mi))
+					if m.Stream != "" {
+						cs = append(cs, cases.Stream(d.Spec, sv, m, r, c.StreamPerMethod[ti], len(cs))...)
+					} else {
+						cs = append(cs, c.MkCases(d.Spec, sv, m, r, min(c.PerMethod[ti], 8), len(cs))...)
+					}
+				}
+			}
+			return cs
+		}
+		dir := filepath.Join(sc, "stream")
+		runDesigns(run, c, dir, specs, mk, false)
+		if os.Getenv("VERIF_KEEP") == "" {
+			os.RemoveAll(dir)
+		}
+		// a streaming batch that mostly hung decided nothing: a broken run, not a pass
+		if total, hung := run.Counter("stream_exchanges"), run.Counter("stream_watchdog_fired"); hung >= 8 && hung*4 > total {
+			run.Infra("streaming: %d of %d exchanges hit the watchdog (both ends wait for each other: the stream protocol is broken or the machine is stalled)", hung, total)
+		} else if total == 0 {
+			run.Infra("streaming: no streaming exchange was driven")
+		}
+		// a streaming method most of whose exchanges hung was not decided at all (a systematic deadlock, e.g. an
+		// end-of-stream marker that is never sent, shows up exactly like this): exit 2, never a pass
+		var hungMethods []string
+		for k, hs := range streamHangs {
+			if hs[0] >= 4 && hs[1]*2 > hs[0] {
+				hungMethods = append(hungMethods, fmt.Sprintf("%s (%d of %d)", k, hs[1], hs[0]))
+			}
+		}
+		if len(hungMethods) > 0 {
+			sort.Strings(hungMethods)
+			run.Infra("streaming: every exchange of %d streaming method(s) deadlocked until the watchdog: %s", len(hungMethods), strings.Join(hungMethods, "; "))
 		}
 	}
 	run.Floor(c.Floor[ti])
@@ -289,6 +360,10 @@ func runDesigns(run *vc.Run, c *rtCheck, dir string, specs []*spec.Spec, mk func
 			}
 			if v.Inconclusive != "" {
 				run.Inconclusive(v.Inconclusive)
+				if os.Getenv("VERIF_DEBUG") != "" && ex.Stream != nil && ex.Stream.Watchdog != "" {
+					bb, _ := json.Marshal(ex)
+					fmt.Fprintf(os.Stderr, "WATCHDOG %s %s\n", d.ID, tailS(string(bb), 6000))
+				}
 				continue
 			}
 			conclusive++
@@ -301,6 +376,11 @@ func runDesigns(run *vc.Run, c *rtCheck, dir string, specs []*spec.Spec, mk func
 			for _, n := range v.Notes {
 				run.Count("note_"+n, 1)
 			}
+			if ex.Case.Stream != nil && len(v.Findings) == 0 {
+				// distinct (kind x message type kinds x counts) signatures of streaming exchanges
+				run.Distinct("stream|" + fmt.Sprint(ex.Case.Note["stream_sig"]) + "|" + ex.Case.Class)
+				run.Seen("stream_signatures", fmt.Sprint(ex.Case.Note["stream_sig"]))
+			}
 			if len(v.Findings) == 0 && (c.NonTrivial == nil || c.NonTrivial(ex)) {
 				run.Distinct(fmt.Sprintf("%s|%s|%s|%s", d.Spec.Signature(), ex.Case.Method, ex.Case.Class, shape(ex)))
 				run.Sample(map[string]any{"features": d.Spec.Features, "case": ex.Case, "wire_req": wireBrief(ex), "status": statusOf(ex), "taps": ex.Seq})
@@ -308,6 +388,12 @@ func runDesigns(run *vc.Run, c *rtCheck, dir string, specs []*spec.Spec, mk func
 		}
 		if conclusive > 0 {
 			run.Count("designs_driven", 1)
+			for _, ex := range r.exs {
+				if ex.Stream != nil && ex.Stream.Watchdog == "" {
+					run.Count("stream_designs_driven", 1)
+					break
+				}
+			}
 			for _, f := range d.Spec.Features {
 				run.Seen("features", f)
 			}
@@ -339,6 +425,9 @@ func shape(ex *rt.Exchange) string {
 	return string(b)
 }
 
+// streamHangs counts, per streaming method, the exchanges driven and those the watchdog ended.
+var streamHangs = map[string][2]int{}
+
 func countTaps(run *vc.Run, ex *rt.Exchange) {
 	if ex.ClientIn != nil || ex.Case.NoPay {
 		run.Count("tap_client_in", 1)
@@ -356,6 +445,30 @@ func countTaps(run *vc.Run, ex *rt.Exchange) {
 	}
 	if ex.ClientOut != nil {
 		run.Count("tap_client_out", 1)
+	}
+	if r := ex.Stream; r != nil {
+		k := ex.Design + " " + ex.Case.Svc + "." + ex.Case.Method
+		hs := streamHangs[k]
+		hs[0]++
+		if r.Watchdog != "" {
+			hs[1]++
+		}
+		streamHangs[k] = hs
+		run.Count("stream_exchanges", 1)
+		run.Count("tap_stream_client_send", len(r.ClientSent)+r.RawSent)
+		run.Count("tap_stream_stub_recv", len(r.StubRecv))
+		run.Count("tap_stream_stub_send", len(r.StubSent))
+		run.Count("tap_stream_client_recv", len(r.ClientRecv)+len(r.RawRecv))
+		run.Count("tap_stream_wire_frames", len(r.WireC2S)+len(r.WireS2C))
+		if r.Watchdog != "" {
+			run.Count("stream_watchdog_fired", 1)
+		}
+		if r.ConnLeftOpen {
+			run.Count("stream_conn_left_open_by_handler", 1)
+		}
+		if ex.Case.Stream != nil && ex.Case.Stream.RawClient {
+			run.Count("stream_exchanges_raw_client", 1)
+		}
 	}
 }
 
